@@ -664,7 +664,12 @@ def gen_sats_nfw(
                 )
                 # elg conformity
                 if keep_cent[i] == 1:
-                    M1_E_temp = 10 ** (logM1_EL + As_E * hdeltac[i] + Bs_E * hfenv[i])
+                    M1_E_temp = 10 ** (
+                        logM1_EL
+                        + As_E * hdeltac[i]
+                        + Bs_E * hfenv[i]
+                        + Cs_E * hshear[i]
+                    )
                     base_p_E = (
                         N_sat_elg(
                             hmass[i],
@@ -678,7 +683,10 @@ def gen_sats_nfw(
                     )
                 elif keep_cent[i] == 2:
                     M1_E_temp = 10 ** (
-                        logM1_EE + As_E * hdeltac[i] + Bs_E * hfenv[i]
+                        logM1_EE
+                        + As_E * hdeltac[i]
+                        + Bs_E * hfenv[i]
+                        + Cs_E * hshear[i]
                     )  # M1_E_temp*10**delta_M1
                     base_p_E = (
                         N_sat_elg(
@@ -1004,7 +1012,12 @@ def gen_sats(
                 )
                 # elg conformity
                 if keep_cent[i] == 1:
-                    M1_E_temp = 10 ** (logM1_EL + As_E * hdeltac[i] + Bs_E * hfenv[i])
+                    M1_E_temp = 10 ** (
+                        logM1_EL
+                        + As_E * hdeltac[i]
+                        + Bs_E * hfenv[i]
+                        + Cs_E * hshear[i]
+                    )
                     base_p_E = (
                         N_sat_elg(
                             hmass[i],
@@ -1019,7 +1032,10 @@ def gen_sats(
                     )
                 elif keep_cent[i] == 2:
                     M1_E_temp = 10 ** (
-                        logM1_EE + As_E * hdeltac[i] + Bs_E * hfenv[i]
+                        logM1_EE
+                        + As_E * hdeltac[i]
+                        + Bs_E * hfenv[i]
+                        + Cs_E * hshear[i]
                     )  # M1_E_temp*10**delta_M1
                     base_p_E = (
                         N_sat_elg(
